@@ -2,7 +2,7 @@
    Directives in force: those of ExtrOcamlBasic only (bool, option, unit, list, prod, sumbool,
    sumor extracted to OCaml's own; N, positive, nat stay inductive).  No Extract Constant of ours. *)
 From Coq Require Import Arith NArith List.
-From Blue Require Import Scrunch.ModelBits Scrunch.Model Scrunch.ModelWT.
+From Blue Require Import Scrunch.ModelBits Scrunch.Model Scrunch.ModelWT Scrunch.ModelPrefixWT.
 Require Import ExtrOcamlBasic.
 Extraction Language OCaml.
 Extraction "../ocaml/scrunch/gen_scrunch.ml"
@@ -15,4 +15,5 @@ Extraction "../ocaml/scrunch/gen_scrunch.ml"
   occurrences spec_record_of spec_record
   sigma_K char_to_sigma sa_index_to_sigma sa_index_to_t sa_range_for sa_range_for_sigma
   sigma_construct translate_text suffix_array inverse psi_of inverse_and_psi
+  fw_tree fw_enc fw_dec pt_access pt_rank_q pt_select_q
   N.of_nat N.to_nat.
